@@ -774,8 +774,10 @@ func c15CheckHTTP(sc *Scenario, obs *Obs, p *c15Params, be *c15Backend, faulty b
 					found = true
 				}
 			}
-			if !found && !faulty {
-				res.Violate("relay-not-reported", site, fmt.Sprintf("no event records %s %s for client %s", m.Method, m.Target, a.Src))
+			// a request that reached the backend has been relayed, whatever happened to the reply afterwards (backend
+			// closing mid-reply, client gone): it must be on record
+			if !found {
+				res.Violate("relay-not-reported", site, fmt.Sprintf("no event records %s %s for client %s although the backend received the request (fault: %q)", m.Method, m.Target, a.Src, p.Fault))
 				return
 			}
 			res.probe("requests-verified", 1)
